@@ -79,6 +79,12 @@ func (k *Keeper) SlashAssets(ctx sdk.Context, parameter *types.SlashInputInfo) (
 	if err != nil {
 		return nil, err
 	}
+	// there is nothing to slash if the operator has neither staking nor unbonding assets. Return an
+	// error instead of dividing by zero, because a panic here would halt the chain: the slash is
+	// executed in BeginBlock.
+	if !stakingInfo.StakingAndWaitUnbonding.IsPositive() {
+		return nil, errorsmod.Wrapf(types.ErrValueIsNilOrZero, "the USD value of the operator's staking and unbonding assets isn't positive, operator:%s", parameter.Operator)
+	}
 	// calculate the new slash proportion
 	newSlashProportion := slashUSDValue.Quo(stakingInfo.StakingAndWaitUnbonding)
 	newSlashProportion = sdkmath.LegacyMinDec(sdkmath.LegacyNewDec(1), newSlashProportion)
